@@ -38,6 +38,9 @@ pub(crate) struct MulticastGroups(IndexMap<SocketAddr, IndexSet<SocketAddr>>);
 
 impl MulticastGroups {
     fn destination_addresses(&self, group: SocketAddr) -> IndexSet<SocketAddr> {
+        // Groups are keyed by address and port only; an IPv6 destination may
+        // carry a scope id / flow info.
+        let group = SocketAddr::new(group.ip(), group.port());
         self.0.get(&group).cloned().unwrap_or_default()
     }
 
